@@ -87,10 +87,15 @@ def run(tier, rep):
         f["jit_samples_compared"] += r["jit"]
         f["quantile_calls"] += r["quant"]["n"]
         f["node_and_connection_constructions"] += r["node"]["n"]
+        if r["mixq"]["n"]:
+            f["direct_vector_quantile_calls"] += r["mixq"]["n"]
+            f["direct_calls_that_raised_RuntimeError"] += r["mixq"]["raised"]
+            f["direct_calls_that_returned"] += r["mixq"]["returned"]
+            f["direct_levels_judged"] += r["mixq"]["levels"]
         arr_q[(k, r["quant"]["array_q_ok"])] += 1
         emit(r["viols"])
-        rep.add(states=r["hist"]["states"] + len(R.quantile_levels()), transitions=r["hist"]["ops"] + r["quant"]["n"] + r["node"]["n"] + r["jit"],
-                traces=r["hist"]["histories"] + r["quant"]["n"] + r["node"]["n"] + r["jit"])
+        rep.add(states=r["hist"]["states"] + len(R.quantile_levels()), transitions=r["hist"]["ops"] + r["quant"]["n"] + r["node"]["n"] + r["jit"] + r["mixq"]["n"],
+                traces=r["hist"]["histories"] + r["quant"]["n"] + r["node"]["n"] + r["jit"] + r["mixq"]["n"])
     for k, f in fam.items():
         rep.section(f"family_{k}", **f)
     rep.section("histories", alphabet=[R.op_name(o) for o in R.OPS], depth_completed=min(t["depth"] for t in dist_tasks), members_at_depth_4=sum(t["depth"] == 4 for t in dist_tasks),
@@ -99,6 +104,10 @@ def run(tier, rep):
     rep.section("quantiles", levels=R.quantile_levels(), called_as="python float (as rex does); monotone over the sorted grid; judged by float64 CDF",
                 array_valued_q_works={f"{k}:{ok}": n for (k, ok), n in sorted(arr_q.items(), key=str)},
                 note="array-valued q is outside the property (q: float); for mixtures it raises ValueError for more than one level (observed, not a violation)")
+    rep.section("direct_mixture_quantiles", function="rex.utils.mixture_distribution_quantiles(dist, probs vector, 1000, grid_min, grid_max)",
+                grids=["as-rex (component 0.1%/99.9% points pushed out 10%)", "component-ends", "truncated-4-96 (does not span the level grid)"],
+                level_vectors={k: len(v) for k, v in R.mixq_level_vectors().items()}, beyond_levels=[R.Q_BELOW, R.Q_ABOVE],
+                oracle="raises RuntimeError, or every entry within one grid cell of the float64 quantile and non-decreasing in q")
     for r in res_dist[:1] + [x for x in res_dist if x["spec"]["kind"] == "mix"][:2]:
         rep.sample(dict(dist=R.spec_name(r["spec"]), q50=r["quant"]["q50"], q99=r["quant"]["q99"], histories=r["hist"]["histories"], rng_states=r["hist"]["states"],
                         clipped=f"{r['hist']['clipped']}/{r['hist']['drawn']}"))
@@ -155,6 +164,8 @@ def replay(body):
     elif kind == "monotone":
         vals = [X.check_quantile_one(rp["spec"], q)[0] for q in rp["q"]]
         bad = [("not-monotone", f"{vals}")] if None in vals or vals[0] > vals[1] else []
+    elif kind == "mixq":
+        _, bad = X.check_mixq_one(rp["spec"], rp["grid"], rp["levels"])
     elif kind == "node":
         bad = [(s, w) for s, w, _ in X.check_node_default(rp["spec"])["viols"]]
     elif kind == "gmm_const":
